@@ -265,7 +265,7 @@ theorem asInv_handleMsgs (ms : List Msg) (e : Ep) (hi : ASInv e) : ASInv (handle
     unfold handleMsgs
     split
     · exact hi
-    · exact ih _ (asInv_handleMsg e m hi)
+    · exact ih _ (asInv_handleMsg _ m (asInv_of_view (e := e) rfl hi))
 
 theorem asInv_recvRaw (e : Ep) (c : Bytes) (hi : ASInv e) : ASInv (recvRaw e c).1 := by
   unfold recvRaw
